@@ -313,7 +313,8 @@ class MessageQueue(Entity):
         # Track delivery latency
         created_time = msg.created_at.to_seconds() if msg.created_at else 0
         now_time = now.to_seconds() if now else 0
-        self._delivery_latencies.append(now_time - created_time)
+        latency_sample = now_time - created_time
+        self._delivery_latencies.append(latency_sample)
 
         if msg.delivery_count > 1:
             self._messages_redelivered += 1
@@ -321,6 +322,33 @@ class MessageQueue(Entity):
             self._messages_delivered += 1
 
         yield self._delivery_latency
+
+        # The message may have been acknowledged (or dead-lettered/discarded)
+        # by an earlier recipient while this delivery was suspended.
+        if self._messages.get(message_id) is not msg:
+            return None
+
+        # The consumer was picked before the latency above; it may have
+        # unsubscribed while this delivery was suspended. Deliver only to a
+        # consumer that is subscribed now.
+        if consumer not in self._consumers:
+            consumer = self._get_next_consumer()
+            if consumer is None:
+                # Nobody left to deliver to: undo this attempt so the message
+                # is pending again (at the head) and is not counted as delivered.
+                if self._in_flight.get(message_id) is msg:
+                    del self._in_flight[message_id]
+                    if msg.delivery_count > 1:
+                        self._messages_redelivered -= 1
+                    else:
+                        self._messages_delivered -= 1
+                    msg.delivery_count -= 1
+                    self._delivery_latencies.remove(latency_sample)
+                    msg.state = MessageState.PENDING
+                    msg.consumer = None
+                    self._pending_queue.appendleft(message_id)
+                return None
+            msg.consumer = consumer
 
         # Create delivery event. The latency above advanced the clock, so
         # stamp the event with the current time, not the pre-latency one.
